@@ -23,8 +23,11 @@ SITE = {
     "rex": "Interval::refine_existential", "run": "Interval::refine_universal",
     "wrap": "Interval::wrap_assign", "contains": "Interval::contains", "scontains": "Interval::strictly_contains",
     "disjoint": "Interval::is_disjoint_from", "eq": "Interval::operator==", "cc76": "Interval::CC76_widening_assign",
+    "lin": "linearize", "relerr": "Linear_Form::relative_error", "intervalize": "Linear_Form::intervalize",
+    "ceval": "float-semantics-simulation",
 }
 PROPERTY_OBLIGATIONS = ("enclose", "empty", "exact", "pred", "okinv")
+# "fpmodel": the driver's exact simulation of the analysed machine differs from this machine's hardware (an error of the check)
 
 
 def site_of(op):
@@ -81,6 +84,15 @@ def run(ctx):
     rc, _, err = ctx.run(cmd, stdout_path=journal, timeout=1500)
     if rc != 0:
         ctx.fatal("harness failed rc=%s %s" % (rc, (err or "")[-500:]))
+    # second harness: linearize / relative_error / intervalize on expression trees (6 configurations)
+    h2 = ctx.compile_harness("c12_linearize.cc", flags=("-frounding-math",))
+    journal2 = os.path.join(wd, "journal-lin.txt")
+    ncount = 600 if ctx.tier == "quick" else 15000
+    rc, _, err = ctx.run([h2, "--seed", str(seed), "--count", str(ncount)], stdout_path=journal2, timeout=1500)
+    if rc != 0:
+        ctx.fatal("linearize harness failed rc=%s %s" % (rc, (err or "")[-500:]))
+    with open(journal, "a") as f:
+        f.write(open(journal2).read())
     t_harness = time.time() - t0
 
     events, probes, crashes = {}, {}, []
@@ -170,6 +182,9 @@ def run(ctx):
                                  "history": [" ".join(ev)], "driver": "pplv_c12",
                                  "driver_args": ["--d3", "1" if d3 else "0", "--d12", "1" if d12 else "0"]},
                           found_input=True, record={"site": site, "tags": tags, "obligation": ob})
+        elif any(m[0] == "fpmodel" for m in mism[eid]):
+            ctx.fatal("the driver's simulation of the analysed floating-point machine disagrees with the hardware: %s : %s"
+                      % (" ".join(ev), mism[eid]))
         elif any(m[0] == "parse" for m in mism[eid]):
             ctx.fatal("driver could not parse event %s: %s" % (" ".join(ev), mism[eid]))
         else:
@@ -241,6 +256,7 @@ def run(ctx):
         defect_switches_measured={"d3_mul_straddle_keeps_info_of_discarded_candidate": d3, "d3_witness": probes["d3"][1],
                                   "d12_wrap_width_eq_2_pow_w": d12, "d12_witness": probes["d12"][1]},
         random_pairs_per_type=nrandom,
+        linearize_trees_per_configuration=ncount,
         harness_crashes=len(crashes),
         model_selftest_failures=len(st_fail),
         phase_seconds={"ppl+lake (incl. waiting for the shared locks)": round(t_prove, 1), "harness compile": round(t_cc, 1),
@@ -251,6 +267,11 @@ def run(ctx):
         "double rounding is IEEE binary64 directed rounding (Rounding.double); the library is compiled with -frounding-math",
         "exactness for the integer type = least interval with integer closed bounds; strict relations on policies that cannot store OPEN are checked for enclosure only (the library rejects strict constraints for such boxes)",
         "division of {0} by a zero-straddling interval returns the universe by design (I_SINGULARITIES)",
+        "analysed machine: every arithmetic operation returns fl(exact result) with |fl(v) - v| <= eps_f*|v| + omega_f "
+        "(eps_f = 2^-MANTISSA_BITS, omega_f = 2^(1-EXPONENT_BIAS-MANTISSA_BITS), Float_defs.hh), which covers round-to-nearest, "
+        "upwards, downwards and towards zero of the IEEE754 single/double formats as long as no operation overflows; negation is exact; "
+        "overflowing or dividing-by-zero concrete executions are not judged",
+        "a floating-point literal is abstracted by the oracle to an interval containing its roundings to the analysed format in all four modes",
     ]
     if ctx.tier == "thorough":
         bad = ctx.leanchecker(["PPLV.Props.C12"])
@@ -262,7 +283,8 @@ def replay(ctx, path):
     """Re-run one recorded event on the library as it is now and judge it again."""
     from checks.common import replay_generic
     r = json.load(open(path))
-    if not all(k in r for k in ("type", "op", "I", "J")):
+    if not all(k in r for k in ("type", "op", "I", "J")) or len(r.get("type", "")) == 2:
+        # linearization events (two-letter configuration): re-judge the recorded journal line with the current driver
         return replay_generic(ctx, path)
     ctx.ensure_ppl()
     drv = ctx.ensure_pplv("pplv_c12")
